@@ -318,7 +318,7 @@ static void make_dir() {
     g_dir = b; mkdir(g_dir.c_str(), 0700);
 }
 static void cleanup_dir() {
-    if (g_dir.empty()) return;
+    if (g_dir.empty() || getenv("C01_KEEP")) return;   // C01_KEEP=1 with --replay: leave the written file in the scratch directory
     if (DIR* d = opendir(g_dir.c_str())) { while (dirent* e = readdir(d)) { if (strcmp(e->d_name, ".") && strcmp(e->d_name, "..")) unlink((g_dir + "/" + e->d_name).c_str()); } closedir(d); }
     rmdir(g_dir.c_str());
     rmdir("/verif/build/C01-data");   // succeeds only when no other process uses it
@@ -350,10 +350,13 @@ struct Outcome {
 };
 static const char* const KIND[] = {"ok", "writer-threw", "framing-unparseable", "format-limit-exceeded", "reader-threw", "field-mismatch", "object-count-mismatch", "header-mismatch"};
 
-static bool g_keep_file = false;   // replay with C01_KEEP=1: leave the file in the scratch directory
+
+static std::string case_spec(const DataSet& d, const Opt& o) { return d.name + ";sel=" + d.sel + ";opt=" + opt_string(o); }
+static std::vector<std::string> g_history;   // the last cycles of this process, oldest first (for findings that need earlier files)
 
 static Outcome cycle(const DataSet& d, const Opt& o) {
     ensure_pools();
+    g_history.push_back(case_spec(d, o)); if (g_history.size() > 5) g_history.erase(g_history.begin());
     Outcome out;
     const std::string path = g_dir + "/f." + FMT[o.fmt] + ZIP[o.zip];
     const Expect e = carry(d, o);
@@ -498,13 +501,14 @@ static std::vector<size_t> sel_parse(const std::string& s) {
     return r;
 }
 
-// what a whole-file finding (exception, limit) is attributed to: the family tag, the single object's factor, or "sequence"
-static std::string subject(const DataSet& d, const Opt& o) {
-    if (!d.keyhint.empty()) return d.keyhint;
+// What a whole-file finding is attributed to. Exceptions: the factor of the one-factor variant when the (reduced) selection is a
+// single labelled object, otherwise "unlabelled". Limits, framing and object counts: the family tag of the block families.
+static std::string subject(const DataSet& d, const Opt& o, bool family) {
+    if (family && !d.keyhint.empty()) return d.keyhint;
     const AObj* only = nullptr; size_t n = 0;
     for (const AObj& x : d.objs) if (!out_of_domain(x, o)) { only = &x; ++n; }
     if (n == 1 && !only->label.empty()) return only->label;
-    return n == 0 ? "no-objects" : n == 1 ? "single-object" : "sequence";
+    return n == 0 ? "no-objects" : "unlabelled";
 }
 static char single_type(const DataSet& d, const Opt& o) {
     char t = 0; size_t n = 0;
@@ -518,13 +522,13 @@ static std::string area_x(const Opt& o, char type) { return o.xml() ? "xml" : ar
 static std::string outcome_key(const DataSet& d, const Opt& o, const Outcome& r) {
     switch (r.kind) {
         case Outcome::ok: return "";
-        case Outcome::writer_threw: return area_x(o, single_type(d, o)) + "/writer-rejects-in-domain/" + r.key_what + "/" + subject(d, o);
-        case Outcome::framing_bad: return "pbf/framing-unparseable/" + r.key_what + "/" + subject(d, o);
-        case Outcome::limit_exceeded: return "pbf/limit/" + r.key_what + "/" + subject(d, o);
+        case Outcome::writer_threw: return area_x(o, single_type(d, o)) + "/writer-rejects-in-domain/" + r.key_what + "/" + subject(d, o, false);
+        case Outcome::framing_bad: return "pbf/framing-unparseable/" + r.key_what + "/" + subject(d, o, true);
+        case Outcome::limit_exceeded: return "pbf/limit/" + r.key_what + "/" + subject(d, o, true);
         case Outcome::reader_threw: if (!r.key_cls.empty()) return "pbf/reader-rejects-written-file/" + r.key_what + "/" + r.key_cls;
-                                    return area_x(o, single_type(d, o)) + "/reader-rejects-written-file/" + r.key_what + "/" + subject(d, o);
+                                    return area_x(o, single_type(d, o)) + "/reader-rejects-written-file/" + r.key_what + "/" + subject(d, o, false);
         case Outcome::mismatch: return area(o, r.obj_type) + "/" + r.key_what + "/" + r.key_cls;
-        case Outcome::count_mismatch: return area(o) + "/" + r.key_what + "/" + subject(d, o);
+        case Outcome::count_mismatch: return area(o) + "/" + r.key_what + "/" + subject(d, o, true);
         case Outcome::header_mismatch: return area(o) + "/header/" + r.key_what + "/" + r.key_cls;
     }
     return "";
@@ -533,15 +537,52 @@ static std::string outcome_key(const DataSet& d, const Opt& o, const Outcome& r)
 static std::set<std::string> g_sets;
 static void set_once(const std::string& key, const std::string& v) { if (g_sets.insert(key + "\t" + v).second) benum::setv(key, v); }
 
-static void report(const DataSet& d, const std::vector<size_t>* sel, const Opt& o, const Outcome& r) {
-    DataSet t = sel ? select(d, *sel) : d;
-    const std::string key = outcome_key(t, o, r);
-    std::string detail = "options: " + opt_human(o) + " | data set " + d.name + (sel ? " objects " + sel_string(*sel) : "") + " (" + std::to_string(t.objs.size()) + " objects) | " + r.detail;
-    if (t.objs.size() == 1 && r.kind != Outcome::mismatch) detail += " | object: " + show(t.objs[0]);
-    V.report(key, detail, d.name + ";sel=" + (sel ? sel_string(*sel) : std::string("all")) + ";opt=" + opt_string(o));
+// Runs "<this executable> --replay <spec>" and returns the class keys it prints.
+static std::set<std::string> replay_in_fresh_process(const std::string& spec) {
+    std::set<std::string> keys;
+    char exe[4096]; ssize_t n = readlink("/proc/self/exe", exe, sizeof exe - 1); if (n <= 0) return keys; exe[n] = 0;
+    int fd[2]; if (pipe(fd) != 0) return keys;
+    pid_t pid = fork();
+    if (pid == 0) {
+        dup2(fd[1], 1); close(fd[0]); close(fd[1]);
+        execl(exe, exe, "--tier", "quick", "--replay", spec.c_str(), static_cast<char*>(nullptr));
+        _exit(127);
+    }
+    close(fd[1]);
+    std::string out; char buf[4096]; ssize_t k;
+    while ((k = read(fd[0], buf, sizeof buf)) > 0) out.append(buf, static_cast<size_t>(k));
+    close(fd[0]); int st = 0; waitpid(pid, &st, 0);
+    size_t p = 0;
+    while (p < out.size()) { size_t e = out.find('\n', p); if (e == std::string::npos) e = out.size(); std::string line = out.substr(p, e - p); p = e + 1;
+        if (line.compare(0, 5, "VIOL\t") == 0) { size_t t = line.find('\t', 5); keys.insert(line.substr(5, t == std::string::npos ? t : t - 5)); } }
+    return keys;
 }
 
-static bool same_failure(const Outcome& a, const Outcome& b) { return a.kind == b.kind && (a.kind != Outcome::mismatch || a.key_what == b.key_what); }
+static bool g_in_replay = false;
+static const char* const AFTER = "/only-after-other-files-in-the-same-process";
+
+// Reports a failing case. The first reports of a class are confirmed by replaying the spec in a fresh process; a failure that
+// needs the files processed before it (state kept by the library across files) is reported with those files in its spec.
+static void report(const DataSet& d, const std::vector<size_t>* sel, const Opt& o, const Outcome& r) {
+    DataSet t = sel ? select(d, *sel) : d;
+    std::string key = outcome_key(t, o, r);
+    std::string detail = "options: " + opt_human(o) + " | data set " + d.name + (sel ? " objects " + sel_string(*sel) : "") + " (" + std::to_string(t.objs.size()) + " objects) | " + r.detail;
+    if (t.objs.size() == 1 && r.kind != Outcome::mismatch) detail += " | object: " + show(t.objs[0]);
+    std::string spec = case_spec(t, o);
+    static std::map<std::string, unsigned> printed;
+    if (!g_in_replay && printed[key]++ < 3) {
+        ++C["findings_confirmed_in_fresh_process"];
+        if (!replay_in_fresh_process(spec).count(key)) {
+            std::string chain; for (const auto& h : g_history) if (h != spec || &h != &g_history.back()) chain += (chain.empty() ? "" : "|") + h;
+            const std::string spec2 = spec + ";after=" + benum::hex(chain);
+            if (replay_in_fresh_process(spec2).count(key + AFTER)) { key += AFTER; spec = spec2; detail += " | not reproduced by this file alone in a fresh process; reproduced after " + chain; }
+            else { key = "not-reproducible-in-a-fresh-process/" + key; detail += " | neither this file alone nor the last files of this process reproduce it"; }
+        }
+    }
+    V.report(key, detail, spec);
+}
+
+static bool same_failure(const Outcome& a, const Outcome& b) { return a.kind == b.kind && a.key_what == b.key_what && a.key_cls == b.key_cls; }
 
 // Objects that were found to make a cycle fail, per data set and format: later cycles on the same data set (in this process)
 // write the sequence without them, so that the rest of the sequence is still compared under every option vector.
@@ -549,22 +590,22 @@ static std::map<std::string, std::set<size_t>> g_quarantine;
 
 // Runs one case. A failing sequence is reduced to the object that causes the failure (alone, or with its predecessor), the
 // finding is reported with that selection, and the sequence is run again without the object.
-static void evaluate(const DataSet& d, const Opt& o, bool is_replay = false) {
+static void evaluate(const DataSet& d, const Opt& o) {
     auto count = [&](const Outcome& r) {
-        ++C["evaluations"];
+        ++C["evaluations"]; ++C["write_read_cycles"];
         if (r.nontrivial) ++C["distinct_nontrivial"];
         C["objects_written"] += r.written;
         C["objects_outside_vector_domain_skipped"] += r.skipped;
         set_once("outcomes", area(o) + ":" + KIND[r.kind]);
     };
-    if (is_replay || d.objs.size() <= 1 || !d.keyhint.empty()) {
+    if (d.objs.size() <= 1 || !d.keyhint.empty()) {
         Outcome r = cycle(d, o);
         if (r.outside_domain) { ++C["cycles_skipped_header_outside_vector_domain"]; return; }
-        if (!is_replay) count(r);
+        count(r);
         if (r.kind != Outcome::ok) { ++C["failed_cycles"]; report(d, nullptr, o, r); }
         return;
     }
-    std::set<size_t>& quarantine = g_quarantine[d.name + "|" + (o.xml() ? "xml" : o.pbf() ? "pbf" : "opl")];
+    std::set<size_t>& quarantine = g_quarantine[d.name + "|" + area(o, 'n')];
     const std::set<size_t> before = quarantine;
     std::vector<size_t> active;
     for (size_t i = 0; i < d.objs.size(); ++i) if (!quarantine.count(i)) active.push_back(i);
@@ -574,7 +615,10 @@ static void evaluate(const DataSet& d, const Opt& o, bool is_replay = false) {
         if (iter == 0) count(r);
         if (r.kind == Outcome::ok) break;
         ++C["failed_cycles"];
-        auto fails_same = [&](const std::vector<size_t>& s, Outcome& out) { out = cycle(select(d, s), o); ++C["reduction_cycles"]; return same_failure(out, r); };
+        static unsigned reductions = 0;                 // per process: a failure class that hits everything must not eat the time budget
+        const bool may_reduce = reductions < 8000 && quarantine.size() < 40;   // mass failure: stop looking for single culprits
+        auto fails_same = [&](const std::vector<size_t>& s, Outcome& out) { out = cycle(select(d, s), o); ++C["reduction_cycles"]; ++reductions; return same_failure(out, r); };
+        if (!may_reduce) { ++C["failures_reported_unreduced"]; report(d, &active, o, r); break; }
         size_t culprit = ~size_t(0);
         Outcome tr;
         if (r.kind == Outcome::mismatch) {
@@ -585,17 +629,20 @@ static void evaluate(const DataSet& d, const Opt& o, bool is_replay = false) {
             else { std::vector<size_t> s2; if (pos > 0) s2.push_back(active[pos - 1]); s2.push_back(culprit);
                    if (pos > 0 && fails_same(s2, tr)) report(d, &s2, o, tr); else report(d, &active, o, r); }
         } else if (r.kind == Outcome::header_mismatch || (r.kind == Outcome::reader_threw && !r.key_cls.empty())) {
-            std::vector<size_t> none;                   // independent of the objects; everything else was compared already
-            if (fails_same(none, tr)) report(d, &none, o, tr); else report(d, &active, o, r);
+            // independent of the objects (everything else was compared already): shown once on the empty sequence
+            static std::set<std::string> shown;
+            std::vector<size_t> none;
+            if (shown.insert(outcome_key(d, o, r)).second && fails_same(none, tr)) report(d, &none, o, tr); else report(d, &active, o, r);
             break;
         } else {                                        // exception, limit, count: bisect for a single object that fails alone
             std::vector<size_t> cur = active;
-            bool found = true;
+            bool found = true, tested = false;
             while (cur.size() > 1 && found) {
                 std::vector<size_t> h1(cur.begin(), cur.begin() + cur.size() / 2), h2(cur.begin() + cur.size() / 2, cur.end());
                 if (fails_same(h1, tr)) cur = h1; else if (fails_same(h2, tr)) cur = h2; else found = false;
+                tested = found;
             }
-            if (found && cur.size() == 1 && fails_same(cur, tr)) { culprit = cur[0]; report(d, &cur, o, tr); }
+            if (found && cur.size() == 1 && (tested || fails_same(cur, tr))) { culprit = cur[0]; report(d, &cur, o, tr); }
             else { report(d, &active, o, r); break; }
         }
         quarantine.insert(culprit);
@@ -698,7 +745,7 @@ static std::vector<AObj> variants(char type) {
         { AObj o = base; o.refs.clear(); for (int64_t id : IDS) if (id != I64MAX) o.refs.push_back({id, Loc{1, 2}}); for (auto it = IDS.rbegin(); it != IDS.rend(); ++it) if (*it != I64MAX) o.refs.push_back({*it, Loc{3, 4}}); add(o, "node-refs:all-boundary-ids-but-the-maximum"); }
         { AObj o = base; o.refs.clear(); for (int i = 0; i < 2000; ++i) o.refs.push_back({1000 + i * (i % 3 == 0 ? -7 : 5), Loc{i, -i}}); add(o, "nodes:2000"); }
         for (const Loc& l : LOCS) { AObj o = base; o.refs = {{5, l}}; add(o, "node-location:" + loc_class(l)); }
-        { AObj o = base; o.refs.clear(); int64_t k = 1; for (const Loc& l : LOCS) o.refs.push_back({k++, l}); add(o, "node-locations:all-boundary-locations"); }
+        { AObj o = base; o.refs.clear(); int64_t k = 1; for (const Loc& l : LOCS) if (l.valid()) { o.refs.push_back({k++, l}); o.refs.push_back({k++, Loc{}}); } add(o, "node-location:undefined"); }   // undefined between valid locations
     }
     if (type == 'r') {
         { AObj o = base; o.members.clear(); add(o, "members:0"); }
@@ -721,7 +768,7 @@ static uint64_t prod_total(char type) { uint64_t t = 1; for (auto r : prod_radix
 static AObj prod_obj(char type, uint64_t rank) {
     benum::Odometer od(prod_radix(type)); od.set_rank(rank);
     const auto& g = od.digit;
-    AObj o; o.type = type; o.label = "product#" + std::to_string(rank);
+    AObj o; o.type = type;
     if (type == 'c') {
         o.id = g[0] ? 2147483648LL : 1; o.created = g[1] ? T0 : 0; o.closed = g[2] ? T0 + 3600 : 0; o.num_changes = g[3] ? 5 : 0; o.num_comments = g[4] ? 2 : 0;
         if (g[5] >= 1) { o.uid = 5; o.user = g[5] == 1 ? "bob" : ""; }
@@ -733,12 +780,12 @@ static AObj prod_obj(char type, uint64_t rank) {
     o.id = g[0] == 0 ? 1 : g[0] == 1 ? -1 : (1LL << 32) + 5; o.version = g[1] == 0 ? 0 : g[1] == 1 ? 1 : 7; o.ts = g[2] ? T0 : 0; o.changeset = g[3] ? 9 : 0; o.uid = g[4] ? 5 : 0;
     o.user = g[5] ? "bob" : ""; o.visible = g[6] == 0;
     if (type == 'n') { if (g[7] == 1) o.loc = Loc{1, 2}; if (g[7] == 2) o.loc = Loc{-1800000000, 900000000}; }
-    if (type == 'w') { if (g[7] == 1) o.refs = {{5, Loc{7, 8}}}; if (g[7] == 2) o.refs = {{9, Loc{}}, {3, Loc{-5, 5}}, {9, Loc{1, 1}}}; }
+    if (type == 'w') { if (g[7] == 1) o.refs = {{5, Loc{7, 8}}}; if (g[7] == 2) o.refs = {{9, Loc{0, 0}}, {3, Loc{-5, 5}}, {9, Loc{1, 1}}}; }
     if (type == 'r') { if (g[7] == 1) o.members = {{'w', 5, "outer"}}; if (g[7] == 2) o.members = {{'n', 9, ""}, {'r', 3, "x y"}, {'w', -9, "inner"}}; }
     if (g[8] == 1) o.tags = {{"k", "v"}}; if (g[8] == 2) o.tags = {{"name", "A & B"}, {"k", "v"}};
     return o;
 }
-static const uint64_t PROD_CHUNK = 96;
+static const uint64_t PROD_CHUNK = 432;
 
 // ------------------------------------------------------------------------------------------------
 // block families
@@ -748,7 +795,7 @@ static AObj blk_obj(char type, uint64_t i) {
     o.tags = {{"k", "v" + std::to_string(i)}};   // one distinct string per object: the string table of a block gets one entry per object
     if (i % 4 == 0) o.tags.push_back({"name", "n" + std::to_string(i % 300)});
     if (type == 'n') o.loc = Loc{static_cast<int32_t>(i * 1000), static_cast<int32_t>(-static_cast<int64_t>(i) * 7)};
-    if (type == 'w') o.refs = {{static_cast<int64_t>(i), Loc{static_cast<int32_t>(i), 5}}, {static_cast<int64_t>(i) + 1, Loc{}}, {static_cast<int64_t>(i) - 5, Loc{-3, static_cast<int32_t>(i)}}};
+    if (type == 'w') o.refs = {{static_cast<int64_t>(i), Loc{static_cast<int32_t>(i), 5}}, {static_cast<int64_t>(i) + 1, Loc{7, -7}}, {static_cast<int64_t>(i) - 5, Loc{-3, static_cast<int32_t>(i)}}};
     if (type == 'r') o.members = {{"nwr"[i % 3], static_cast<int64_t>(i), "r" + std::to_string(i % 9)}, {'w', -static_cast<int64_t>(i), ""}};
     return o;
 }
@@ -765,7 +812,7 @@ static uint64_t pbf_way_size(int64_t id, size_t nrefs) {
     return 1 + varint_len(way) + way;
 }
 static AObj far_way(int64_t id, size_t nrefs) {
-    AObj o; o.type = 'w'; o.id = id; o.label = "way-with-" + std::to_string(nrefs) + "-far-apart-refs";
+    AObj o; o.type = 'w'; o.id = id;
     o.refs.reserve(nrefs);
     for (size_t i = 0; i < nrefs; ++i) o.refs.push_back({i % 2 ? FAR_B : FAR_A, Loc{}});
     return o;
@@ -814,8 +861,9 @@ static DataSet make_dataset(const std::string& name) {
         auto v = variants(typ(1)); if (num(2) < v.size()) { AObj b = v[0]; b.id = 16; if (num(3)) { d.objs.push_back(v[num(2)]); d.objs.push_back(b); } else { d.objs.push_back(b); d.objs.push_back(v[num(2)]); } }
     } else if (fam == "three") {            // three:<type>:<k>  variant between two objects of the other types
         auto v = variants(typ(1)); if (num(2) < v.size()) { d.objs.push_back(base_obj(typ(1) == 'n' ? 'r' : 'n')); d.objs.push_back(v[num(2)]); d.objs.push_back(base_obj(typ(1) == 'w' ? 'r' : 'w')); }
-    } else if (fam == "prod") {             // prod:<type>:<chunk>
-        uint64_t b = num(2) * PROD_CHUNK, e = std::min(prod_total(typ(1)), b + PROD_CHUNK);
+    } else if (fam == "prod") {             // prod:<type>:<chunk>:<chunk size>
+        const uint64_t cs = std::max<uint64_t>(1, num(3));
+        uint64_t b = num(2) * cs, e = std::min(prod_total(typ(1)), b + cs);
         for (uint64_t r = b; r < e; ++r) d.objs.push_back(prod_obj(typ(1), r));
     } else if (fam == "blk") {              // blk:<type>:<N>
         for (uint64_t i = 0; i < num(2); ++i) d.objs.push_back(blk_obj(typ(1), i));
@@ -869,7 +917,7 @@ static std::string spec_of(const std::string& name, const Opt& o) { return name 
 
 static void on_child_death(const std::string& name, const Opt& o, const std::string& what, const std::string& err) {
     const DataSet& d = dataset(name);
-    V.report("crash/" + area(o, single_type(d, o)) + "/" + benum::death_class(what, err) + "/" + subject(d, o),
+    V.report("crash/" + area(o, single_type(d, o)) + "/" + benum::death_class(what, err) + "/" + subject(d, o, true),
              "options: " + opt_human(o) + " | data set " + name + " | child died: " + what + " | " + err.substr(0, 600), spec_of(name, o));
 }
 
@@ -892,8 +940,6 @@ static void run_groups(const Args& a, const std::vector<Group>& groups) {
     }
 }
 
-static std::vector<Opt> filter_opts(const std::vector<Opt>& in, bool (*keep)(const Opt&)) { std::vector<Opt> r; for (const Opt& o : in) if (keep(o)) r.push_back(o); return r; }
-
 static void part_ofat(const Args& a) {
     std::vector<Group> gs;
     { Group g; g.bound = "ofat packed: every one-factor variant of n/w/r/c in one sequence per type x every option vector";
@@ -905,9 +951,10 @@ static void part_ofat(const Args& a) {
     { Group g; g.bound = std::string("ofat singles: each one-factor variant alone x ") + (a.thorough ? "level-1" : "level-0") + " option vectors";
       for (char t : {'n', 'w', 'r', 'c'}) { size_t n = variants(t).size(); for (size_t k = 0; k < n; ++k) g.names.push_back(std::string("one:") + t + ":" + std::to_string(k)); }
       g.opts = all_opts(a.thorough ? 1 : 0); gs.push_back(g); }
-    { Group g; g.bound = std::string("ofat pairs: base object before") + (a.thorough ? " / after" : "") + " each variant x " + (a.thorough ? "level-1" : "level-0") + " option vectors";
-      for (char t : {'n', 'w', 'r', 'c'}) { size_t n = variants(t).size(); for (size_t k = 0; k < n; ++k) for (int ord = 0; ord < (a.thorough ? 2 : 1); ++ord) g.names.push_back(std::string("two:") + t + ":" + std::to_string(k) + ":" + std::to_string(ord)); }
-      g.opts = all_opts(a.thorough ? 1 : 0); gs.push_back(g); }
+    if (a.thorough) {
+      Group g; g.bound = "ofat pairs: base object before / after each variant x level-1 option vectors";
+      for (char t : {'n', 'w', 'r', 'c'}) { size_t n = variants(t).size(); for (size_t k = 0; k < n; ++k) for (int ord = 0; ord < 2; ++ord) g.names.push_back(std::string("two:") + t + ":" + std::to_string(k) + ":" + std::to_string(ord)); }
+      g.opts = all_opts(1); gs.push_back(g); }
     if (a.thorough) {
       Group g; g.bound = "ofat triples: each variant between two objects of the other types x level-1 option vectors";
       for (char t : {'n', 'w', 'r'}) { size_t n = variants(t).size(); for (size_t k = 0; k < n; ++k) g.names.push_back(std::string("three:") + t + ":" + std::to_string(k)); }
@@ -916,17 +963,20 @@ static void part_ofat(const Args& a) {
 }
 
 static void part_prod(const Args& a) {
-    Group g; g.bound = std::string("reduced product: 2-3 values per field, all combinations, chunks of 96 objects x ") + (a.thorough ? "every option vector" : "level-1 option vectors");
-    for (char t : {'n', 'w', 'r', 'c'}) { uint64_t chunks = (prod_total(t) + PROD_CHUNK - 1) / PROD_CHUNK; for (uint64_t c = 0; c < chunks; ++c) g.names.push_back(std::string("prod:") + t + ":" + std::to_string(c)); }
+    Group g; g.bound = std::string("reduced product: 2-3 values per field, all combinations, in sequences of ") + std::to_string(PROD_CHUNK) + " objects x " + (a.thorough ? "every option vector" : "level-1 option vectors");
+    for (char t : {'n', 'w', 'r', 'c'}) { uint64_t chunks = (prod_total(t) + PROD_CHUNK - 1) / PROD_CHUNK; for (uint64_t c = 0; c < chunks; ++c) g.names.push_back(std::string("prod:") + t + ":" + std::to_string(c) + ":" + std::to_string(PROD_CHUNK)); }
     g.opts = all_opts(a.thorough ? 3 : 1);
     run_groups(a, {g});
 }
 
 static void part_blk(const Args& a) {
     std::vector<Group> gs;
-    std::vector<Opt> opts = all_opts(1);
-    {   // add file compression / second pool size for the default vector of each format
-        for (const Opt& o : all_opts(0)) for (int zip = 0; zip < 3; ++zip) for (int thr = 1; thr <= 2; ++thr) { if (!zip && thr == 1) continue; if (o.pbf() && (!o.dense || o.pcomp != 1)) continue; Opt x = o; x.zip = zip; x.thr = thr; opts.push_back(x); }
+    std::vector<Opt> opts;
+    for (const Opt& o : all_opts(1)) { if (!a.thorough && (o.meta == 9 || (!o.pbf() && (o.low || o.fv || o.meta != 31)))) continue; opts.push_back(o); }
+    // file compression / second pool size for the default vector of each format
+    for (const Opt& o : all_opts(0)) for (int zip = 0; zip < 3; ++zip) for (int thr = 1; thr <= 2; ++thr) {
+        if ((!zip && thr == 1) || (o.pbf() && (!o.dense || o.pcomp != 1)) || (!a.thorough && zip && thr == 2)) continue;
+        Opt x = o; x.zip = zip; x.thr = thr; opts.push_back(x);
     }
     { Group g; g.bound = "block boundary: 7999/8000/8001 objects of one type";
       for (const char* t : {"n", "w", "r"}) for (const char* n : {"7999", "8000", "8001"}) g.names.push_back(std::string("blk:") + t + ":" + n);
@@ -1009,7 +1059,7 @@ static void part_bbox(const Args& a) {
     // coordinate pairs: lon k -> (k - 1800000000, k) for k in [0, 1800000000]; lat j -> (j - 900000000, j), j = k / 2
     HeaderCodec hc;
     const uint64_t K = 1800000001ull;
-    const double budget_s = a.thorough ? std::min(a.deadline_s, 300.0) : std::min(a.deadline_s, 12.0);
+    const double budget_s = a.thorough ? std::min(a.deadline_s, 300.0) : std::min(a.deadline_s, 8.0);
     auto t0 = std::chrono::steady_clock::now();
     auto spent = [&] { return std::chrono::duration<double>(std::chrono::steady_clock::now() - t0).count(); };
     uint64_t bad = 0, reported = 0;
@@ -1041,9 +1091,9 @@ static void part_bbox(const Args& a) {
         if (!done) break;
         finest = s; if (s == 0) all = true;
     }
-    benum::bound("PBF header bbox through write_header()/decode_header(): every 2^" + std::to_string(finest < 0 ? s_first : finest) + "-th fixed-point longitude of [-180,180] and latitude of [-90,90]" + (all ? " (= every value)" : ""), finest >= 0);
-    if (a.thorough) benum::bound("PBF header bbox: every valid fixed-point coordinate", all);
-    benum::maxv("bbox_finest_stride_log2_completed", finest < 0 ? 99 : static_cast<uint64_t>(finest));
+    benum::bound("PBF header bbox through write_header()/decode_header(): strided sweep over all fixed-point longitudes of [-180,180] and latitudes of [-90,90], stride 2^s halved until the time share ends (MAX bbox_stride_log2_completed_by_every_shard = s reached)", finest >= 0);
+    if (a.thorough) benum::bound("PBF header bbox: every valid fixed-point coordinate (stride 1)", all);
+    benum::maxv("bbox_stride_log2_completed_by_every_shard", finest < 0 ? 99 : static_cast<uint64_t>(finest));
     C["bbox_boxes_not_reproduced"] += bad;
     // the verdict comes from full Writer -> file -> Reader cycles on the candidates
     make_dir();
@@ -1062,15 +1112,22 @@ static void replay(const Args& a, const std::string& spec) {
     auto parts = split_str(spec, ';');
     if (parts.size() < 3) { fprintf(stderr, "bad spec\n"); return; }
     const std::string name = parts[0], sel = parts[1].substr(4), opt = parts[2].substr(4);
+    const std::string after = parts.size() > 3 && parts[3].compare(0, 6, "after=") == 0 ? benum::unhex(parts[3].substr(6)) : "";
     const Opt o = opt_parse(opt);
     benum::Isolation iso; iso.case_timeout_s = 600.0;
     Args one = a; one.shard = 0; one.nshards = 1; one.deadline_s = 1e9;
+    g_in_replay = true;
+    auto load = [](const std::string& n, const std::string& s) { DataSet d = make_dataset(n); if (s != "all") { d = select(d, sel_parse(s)); d.name = n; } return d; };
     benum::run_isolated(one, 0, 1,
         [&](uint64_t) {
-            DataSet d = make_dataset(name);
-            if (sel != "all") { d = select(d, sel_parse(sel)); d.name = name; }
-            if (getenv("C01_KEEP")) g_keep_file = true;
-            evaluate(d, o, true);
+            if (!after.empty()) for (const auto& h : split_str(after, '|')) {      // the files this process had handled before
+                auto hp = split_str(h, ';'); if (hp.size() < 3) continue;
+                cycle(load(hp[0], hp[1].substr(4)), opt_parse(hp[2].substr(4)));
+            }
+            DataSet d = load(name, sel);
+            Outcome r = cycle(d, o);
+            if (r.outside_domain || r.kind == Outcome::ok) return;
+            V.report(outcome_key(d, o, r) + (after.empty() ? "" : AFTER), "options: " + opt_human(o) + " | data set " + name + " objects " + sel + " | " + r.detail, spec);
         },
         [&](uint64_t, const std::string& what, const std::string& err) { on_child_death(name, o, what, err); }, iso);
 }
@@ -1079,7 +1136,11 @@ int main(int argc, char** argv) {
     Args a = benum::parse_args(argc, argv);
     make_dir();
     if (a.replay) { replay(a, a.replay_spec); cleanup_dir(); return 0; }
-    std::string part = a.rest.size() >= 2 && a.rest[0] == "--part" ? a.rest[1] : "";
+    std::string part;
+    for (size_t i = 0; i + 1 < a.rest.size(); i += 2) {
+        if (a.rest[i] == "--part") part = a.rest[i + 1];
+        if (a.rest[i] == "--budget") a.deadline_s = std::min(a.deadline_s, atof(a.rest[i + 1].c_str()));   // this part's share of the tier's time
+    }
     if (part == "ofat") part_ofat(a);
     else if (part == "prod") part_prod(a);
     else if (part == "blk") part_blk(a);
